@@ -44,7 +44,9 @@ where
   F: FnMut(&Item) -> Duration,
   ThrottleObserver<O, SD, Item, F>: Observer<Item, Err>,
 {
-  type Unsub = S::Unsub;
+  // the pending window task belongs to the subscription: unsubscribing must
+  // cancel it, or the trailing item is still delivered afterwards
+  type Unsub = ZipSubscription<S::Unsub, RcHandler>;
 
   fn actual_subscribe(self, observer: O) -> Self::Unsub {
     let Self {
@@ -54,14 +56,16 @@ where
       edge,
     } = self;
 
-    source.actual_subscribe(ThrottleObserver {
+    let task_handler: RcHandler = MutArc::own(None);
+    let unsub = source.actual_subscribe(ThrottleObserver {
       observer: MutArc::own(Some(observer)),
       edge,
       duration_selector,
       trailing_value: MutArc::own(None),
-      task_handler: TaskHandle::value_handle(NormalReturn::new(())),
+      task_handler: task_handler.clone(),
       scheduler,
-    })
+    });
+    ZipSubscription::new(unsub, task_handler)
   }
 }
 
@@ -70,13 +74,15 @@ impl<Item, Err, S, SD, F> ObservableExt<Item, Err> for ThrottleOp<S, SD, F> wher
 {
 }
 
+type RcHandler = MutArc<Option<TaskHandle<NormalReturn<()>>>>;
+
 pub struct ThrottleObserver<O, SD, Item, F> {
   scheduler: SD,
   observer: MutArc<Option<O>>,
   edge: ThrottleEdge,
   duration_selector: F,
   trailing_value: MutArc<Option<Item>>,
-  task_handler: TaskHandle<NormalReturn<()>>,
+  task_handler: RcHandler,
 }
 
 impl<Item, Err, O, SD, F> Observer<Item, Err>
@@ -94,7 +100,12 @@ where
       if self.edge.tailing {
         *self.trailing_value.rc_deref_mut() = Some(value.clone());
       }
-      if self.task_handler.is_closed() {
+      let window_closed = self
+        .task_handler
+        .rc_deref_mut()
+        .as_ref()
+        .map_or(true, |h| h.is_closed());
+      if window_closed {
         let delay = (self.duration_selector)(&value);
         if self.edge.leading {
           // delivered on the leading edge: it must not come a second time as
@@ -106,7 +117,8 @@ where
           throttle_task,
           (self.observer.clone(), self.trailing_value.clone()),
         );
-        self.task_handler = self.scheduler.schedule(task, Some(delay));
+        let handler = self.scheduler.schedule(task, Some(delay));
+        *self.task_handler.rc_deref_mut() = Some(handler);
       }
     }
   }
